@@ -61,6 +61,40 @@ class CallMixin:
             return self.call_target(fn.target, args, kwargs, st, n)
         raise Unsupported("call %s (line %d)" % (name, n.lineno))
 
+    def assume_lemma(self, use, st):
+        """assume a proved lemma: parameters bound by uses(...) are evaluated in the current state, the others (scalars) are
+        universally quantified.  The lemma itself is an obligation of the same property (verify_lemma)."""
+        name, binds = use if isinstance(use, tuple) else (use, {})
+        lm = self.db.lemmas.get(name)
+        if lm is None:
+            raise Unsupported("unknown lemma %s" % name)
+        sub = st.fork()
+        sub.vars = dict(st.vars)
+        free = []
+        from .state import fresh_of_type
+        for p in lm.params:
+            if p in binds:
+                saved = self.spec
+                self.spec = True
+                try:
+                    sub.vars[p] = self.eval(binds[p], st)
+                finally:
+                    self.spec = saved
+            else:
+                ty = lm.types.get(p, "int")
+                if ty not in ("int", "float", "bool"):
+                    raise Unsupported("lemma %s: parameter %s of type %s must be bound by uses(...)" % (name, p, ty))
+                v = fresh_of_type(sub, "lm_" + p, ty, None)
+                sub.vars[p] = v
+                free.append(v if z3.is_expr(v) else v.v)
+        pre = [zb(as_bool(self.eval_spec(cl.expr, sub))) for cl in lm.requires]
+        post = [zb(as_bool(self.eval_spec(cl.expr, sub))) for cl in lm.ensures]
+        body = z3.Implies(z3.And(*pre) if pre else z3.BoolVal(True), z3.And(*post))
+        if free:
+            pats = choose_patterns(free, body)
+            body = forall_pat(free, body, pats)
+        st.assume(body)
+
     def call_method(self, recv, meth, args, kwargs, st, n):
         h = getattr(self, "m_" + meth, None)
         if h is None:
@@ -216,6 +250,16 @@ class CallMixin:
                 rs = {"real": z3.RealSort(), "int": I, "bool": z3.BoolSort()}[sp.ret]
                 uf = z3.Function(nm, *(sorts + [rs]))
             self._uf_cache[key] = uf
+            fueled = sp.ret in ("int", "bool") and sp.name in (self.opt("fuel", []) or [])
+            if fueled:
+                # bounded unfolding (Dafny-style fuel): the recursive occurrences inside the definition are a second symbol
+                # f0; f(x) == body[f0] and f(x) == f0(x) are both triggered by f(x) only, so every f-term of the problem is
+                # unfolded exactly once and no matching loop is possible
+                uf0 = z3.Function(nm + "0", *(sorts + [rs]))
+                self._fuel0 = getattr(self, "_fuel0", {})
+                self._fuel0[key] = uf0
+                self._in_def = getattr(self, "_in_def", set())
+                self._in_def.add(key)
             # defining axiom: forall scalars. f(scalars) == body
             bound, actual = [], []
             saved_vars, saved_b = st.vars, self.bound_vars
@@ -245,6 +289,10 @@ class CallMixin:
             finally:
                 st.vars = saved_vars
                 self.bound_vars = saved_b
+                if fueled:
+                    self._in_def.discard(key)
+            if fueled and sp.name not in (self.opt("opaque", []) or []):
+                self.axioms.append(z3.ForAll(bound, uf(*bound) == uf0(*bound), patterns=[uf(*bound)]))
             if sp.ret == "float":
                 body = fl.F(body) if not isinstance(body, SFloat) else body
                 ax = z3.And(uf[0](*bound) == body.k, uf[1](*bound) == body.v)
@@ -262,6 +310,8 @@ class CallMixin:
             if sp.name not in (self.opt("opaque", []) or []):  # opaque: the definition is not needed (and not revealed) here
                 self.axioms.append(z3.ForAll(bound, ax, patterns=pat) if bound else ax)
         uf = self._uf_cache[key]
+        if key in getattr(self, "_in_def", ()):
+            uf = self._fuel0[key]
         actual = []
         for p, a in scal:
             if is_float(a):
@@ -394,8 +444,17 @@ class CallMixin:
                         havoc_cell(st, v, pname)
             rt = cc.types.get("result")
             res = None
+            pure_key = None
+            if cc.options.get("pure") and not cc.assigns:
+                # a deterministic function of its arguments' contents: the same arguments (same heap contents) give the same result
+                pure_key = (target,) + tuple(self.content_key(b.get(p), st) for p in params)
+                self._pure_cache = getattr(self, "_pure_cache", {})
+                if pure_key in self._pure_cache:
+                    return self._pure_cache[pure_key]
             if rt is not None:
                 res = fresh_of_type(st, "res_" + target.split(".")[-1], rt, None)
+                if pure_key is not None:
+                    self._pure_cache[pure_key] = res
                 for a in (res if isinstance(res, tuple) else (res,)):
                     if isinstance(a, SArr):
                         self.local_cells.add(a.cell)
@@ -421,6 +480,28 @@ class CallMixin:
 
     def _cur_vars(self, st):
         return st.vars
+
+    def content_key(self, v, st):
+        """identity of a value's CONTENTS in state st (arrays: the heap term they currently hold)"""
+        tn = type(v).__name__
+        if isinstance(v, SArr):
+            h = v.snap if v.snap is not None else st.heap[v.cell]
+            self._keep.append(h)
+            return ("arr", tuple(x.get_id() for x in (h if isinstance(h, tuple) else (h,))), tuple(str(x) for x in v.fixed))
+        if tn == "SData":
+            return ("da", self.content_key(v.arr, st))
+        if tn == "SDs":
+            return ("ds", tuple((k, self.content_key(x, st)) for k, x in sorted(v.vars.items())),
+                    tuple((k, self.content_key(x, st)) for k, x in sorted(v.attrs.items())))
+        if z3.is_expr(v):
+            self._keep.append(v)
+            return ("z", v.get_id())
+        if isinstance(v, SFloat):
+            self._keep += [v.k, v.v]
+            return ("f", v.k.get_id(), v.v.get_id())
+        if isinstance(v, (int, float, str, bool)) or v is None:
+            return ("c", v)
+        return ("id", id(v))
 
     # ------------------------------------------------------------ python builtins
     def b_range(self, args, kw, st, n, parallel=False):
@@ -497,6 +578,13 @@ class CallMixin:
             return v.view_shape()[0]
         if isinstance(v, SList):
             return len(v.items)
+        if isinstance(v, tuple) and v and isinstance(v[0], str):
+            if v[0] == "range":
+                lo, hi, step = zi(v[1]), zi(v[2]), v[3]
+                if not isinstance(step, int) or step <= 0:
+                    raise Unsupported("len(range) with a non-positive / symbolic step")
+                return z3.simplify(z3.If(hi <= lo, z3.IntVal(0), (hi - lo + (step - 1)) / step))
+            raise Unsupported("len of a %s value" % v[0])   # an engine-internal tagged tuple, not a python tuple
         if isinstance(v, (tuple, list, dict, str)):
             return len(v)
         raise Unsupported("len of %r" % type(v))
